@@ -9,72 +9,97 @@ COMMON_NOTE = ("Trusted: Coq 8.16.1 kernel (coqc; coqchk -o in the thorough tier
                "differential testing; std atomics / Vec / ptr operations are modelled, not verified. The theorems are about coq/theories/Machine.v, a hand-written "
                "model tied to /repo on every run by lock-step replay and by evaluating the extracted checker on the implementation's traces.")
 
-# id -> (claimed?, technique, level text, extra note)
+PRE = 'About the hand-written model (coq/theories/Machine.v). Unless said otherwise every theorem below is for EVERY environment of the named class, every thread count, every per-thread program whose chunk sizes are usize values (wf_progs), every schedule, under the run-level hypothesis nowrap (no fetch_add of the run wraps the 64-bit counter; runs outside it are known findings F14/F16). known kinds = slice, vector, array, range under any adaptor; wrapped = the wrapper over an arbitrary iterator with any size hint and any crash point; all kinds = both. '
+
+# id -> (technique, level text, extra note)
 P = {
- "C01": ('Coq proof (inductive tiling invariants over all schedules: counter machine and ticket machine) + lock-step correspondence',
-         "Theorem c01_exactly_once: for every source kind (slice, vector, array, range, also under cloned()/copied(); the wrapper over an arbitrary iterator with any size hint), every length, every thread count, every per-thread program and every schedule whose fetch_adds do not wrap, check_prop 1 (no position delivered twice; once the end is reported and nothing is pending the deliveries tile the source) is true on the model's trace. Proved from two inductive invariants: delivered/held intervals tile [0, min(counter,len)) for the known-size kinds, and [0, cursor) for the wrapped iterator together with the ticket-protocol invariant Prot (disjoint tickets, the ticket at the yielded counter owns the critical section, taken elements are the positions [b, b+k)). The same extracted checker judges the crate's traces on generated, DFS-enumerated and harness-chosen schedules.",
-         'The model executes one call of the wrapped next() as one step; that abstraction is justified by the mutual-exclusion theorem c07_mutual_exclusion proved on the same machine.'),
- "C02": ('Coq proof (per-event invariant; for the wrapped iterator: taken elements are [b, b+k) where b is the ticket) + lock-step correspondence',
-         "Theorem c02_index_fidelity: for every source kind (slice, vector, array, range, also under cloned()/copied(); the wrapper over an arbitrary iterator with any size hint), every length, every thread count, every per-thread program and every schedule whose fetch_adds do not wrap, chk_C02 (every reported index is the element's source position: single pulls, chunk offsets, ids_and_values, enumerate_for_each) holds on the model's trace.",
-         'Sources whose values are an injective non-identity function of the position are used on the crate side so that index/value mix-ups cannot cancel.'),
+ "C01": ("Coq proof (inductive tiling invariants over all schedules: counter machine and ticket machine) + lock-step correspondence",
+         PRE + "c01_exactly_once (all kinds): check_prop 1 = no position is delivered twice (on every run, also with skips and panics) and, when the run has no skip and no panic, once the end has been reported and nothing is pending the deliveries tile the source. The extracted check_prop 1 judges the crate's traces on generated, DFS-enumerated and harness-chosen schedules.",
+         "The no-loss clause is proved and checked only for runs without skip_to_end and without panics (with them the property itself does not demand it). The model executes one call of the wrapped next() as one step; justified by c07_mutual_exclusion."),
+ "C02": ("Coq proof (per-event invariant; wrapped iterator: taken elements are [b, b+k) where b is the ticket) + lock-step correspondence",
+         PRE + "c02_index_fidelity (all kinds): chk_C02 = every reported index is the element's source position (single pulls, chunk offsets, ids_and_values, enumerate_for_each), on every run including runs with panics.",
+         "Elements are identified with their positions in the model: 'the element a sequential iteration would produce' is decided on the crate by values that are an injective non-monotone function of the position (correspondence only)."),
  "C03": ("Coq proof (per-event invariant, chunk arithmetic by lia; partial chunks of the ticket machine end at the source's end) + lock-step correspondence",
-         "Theorem c03_chunk_contract: for every source kind (slice, vector, array, range, also under cloned()/copied(); the wrapper over an arbitrary iterator with any size hint), every length, every thread count, every per-thread program and every schedule whose fetch_adds do not wrap, chk_C03 (chunk non-empty, <= n, consecutive from the begin index, announced length exact before and after partial consumption, short only at the end of the source) on the model's trace, one-shot and buffered.",
-         "The slots of the wrapped iterator's re-used buffer are modelled; the announced/yielded counts of the crate are compared by the correspondence (generator leaves chunks partly consumed before short last chunks)."),
- "C05": ('Coq proof (monotone counter; completed flag / exhausted cursor are stable and every later pull is doomed not to take) + lock-step correspondence',
-         "Theorem c05_end_is_permanent: for every source kind (slice, vector, array, range, also under cloned()/copied(); the wrapper over an arbitrary iterator with any size hint), every length, every thread count, every per-thread program and every schedule whose fetch_adds do not wrap, chk_C05 (after an end report every later-starting pull reports the end and delivers nothing, every later length query reports zero/unknown) on the model's trace.",
-         ''),
- "C06": ('Coq proof (invariants with skip bookkeeping; for the wrapped iterator: skip raises the completed flag, which every later pull tests first) + lock-step correspondence',
-         "Theorem c06_skip_to_end: for every source kind (slice, vector, array, range, also under cloned()/copied(); the wrapper over an arbitrary iterator with any size hint), every length, every thread count, every per-thread program and every schedule whose fetch_adds do not wrap, check_prop 6 (after a returned skip_to_end later pulls report the end and has_more is No; no duplicate, index fidelity, order) on the model's trace with any number of skips anywhere.",
-         'Found F13 (range skip stored the end value), repaired by a fix: commit.'),
- "C11": ('Coq proof (quiescent-state tiling + monotone reported length) + lock-step correspondence',
-         'Theorem c11_known_kinds: chk_C11 (quiescent try_get_len/has_more equal the number of elements still to be delivered; reported lengths never increase; zero/No is definitive) on every trace of the known-size kinds. Theorem c11_wrapped_iterator: chk_C11 on every run of the wrapper over an arbitrary iterator with exact, inexact and unbounded size hints (quiescent answers are truthful; a reported length never increases; zero is definitive; after a single or one-shot pull reported the end the answer is zero), proved as one more invariant layer over the protocol, flag and coverage invariants.',
-         'The exact size hint of the wrapped iterator is assumed truthful (hint = length).'),
- "C12": ('Coq proof (loop accumulator invariant on both machines) + lock-step correspondence',
-         'Theorem c12_loops: for every source kind (slice, vector, array, range, also under cloned()/copied(); the wrapper over an arbitrary iterator with any size hint), every length, every thread count, every per-thread program and every schedule whose fetch_adds do not wrap, check_prop 12 (closure invoked exactly once per element with the right index shape; loops return only after the end) for for_each/enumerate_for_each/fold loops of any chunk sizes mixed with direct pulls. Theorem c12_fold_combination: on a complete run (end reported, nothing pending, no skip, no panic), for every type M with an associative and commutative operation and its neutral element and every f, folding what each thread was handed and combining the per-thread results equals the fold of f over the source positions: the deliveries tile the source (C01), so the positions handed out are a permutation of the source.',
-         ''),
- "C04": ('Coq proof (tiling invariants; everything else lies below the interval at the top; induction over the schedule for the quiescent prefix) + lock-step correspondence with call/return times',
-         "Theorem c04_linearizable_cursor: for every source kind (slice, vector, array, range, also under cloned()/copied(); the wrapper over an arbitrary iterator with any size hint), every length, every thread count, every per-thread program and every schedule whose fetch_adds do not wrap, check_prop 4 (at every point of the history where no call is pending the delivered positions are a gap-free prefix; each thread receives increasing positions; a pull that starts after another returned receives larger positions) on the model's trace, skips included.",
-         'The sequential corollary (single-threaded history = sequential iterator) is the one-thread instance together with C02/C03.'),
- "C07": ('Coq proof (ticket-protocol invariant Prot => mutual exclusion; vector-clock invariant over the orderings extracted from the source => happens-before) + translator for the memory orderings + lock-step correspondence with orderings compared',
-         "Theorems c07_mutual_exclusion and c07_happens_before: for the wrapper over an arbitrary iterator, every size hint, every thread count, every per-thread program (single, chunk, buffered pulls, loops, skip_to_end, length queries) and every schedule whose fetch_adds do not wrap: in every reachable state at most one thread is between its entry to and exit from the wrapped iterator, and chk_C07_hb (vector clocks computed with the C11 release/acquire rules from the orderings that tools/extract_orderings.py reads out of src/iter/atomic_counter.rs and src/iter/implementors/iter.rs on every run; every use of the wrapped iterator happens-after the previous use) is true on the model's label stream. The proof obligation about the source is `sufficient = true` (acquire reads / release read-modify-writes of the yielded counter); the same extracted checker (mutual exclusion scan + vector clocks) judges the crate's label streams, whose orderings are reported by the shim. Theorem c07_label_stream_scan: the mutual-exclusion scan over the label stream (the other half of the extracted checker that judges the crate's label streams) is true on every run of the model.",
-         'Partial on the last sentence of the property: races on other non-atomic state (slices, vector elements, buffers) are excluded through C01/C08 (disjoint positions) and not by a separate memory-model theorem; the happens-before relation is computed over sequentially consistent interleavings of the atomics (values read are the latest written), which is exact for this protocol because every atomic involved in the hand-off is accessed by read-modify-write or acquire/release pairs on one location. Runs that wrap the reserved counter are known finding F14.'),
- "C08": ('Coq proof (ledger tiling invariant: taken and destroyed intervals tile [0, min(counter,len))) + drop-ledger correspondence',
-         "Theorems c08_known_kinds_run / c08_known_kinds_end_of_life: for consuming vectors and arrays, at every point of every schedule the moved-out and the machinery-destroyed intervals are pairwise disjoint and inside the source, and after drop or into_seq_iter (any number taken from the remainder) at any quiescent point they tile the source exactly: every element moved out or destroyed exactly once; for borrowed sources nothing is ever destroyed. Theorems c08_wrapped_iterator_run / c08_wrapped_iterator_end_of_life: the same for the wrapper over an arbitrary iterator, owning or not, with every size hint, with its re-used buffer (stale slots), with panics of the wrapped iterator at any call and of the closures: the positions handed out, destroyed, held by running operations and sitting in the slots of the threads' buffered iterators are at every point a permutation of the positions the wrapped iterator has yielded; at the end of life, once every thread has dropped its buffered iterator, every element is moved out or destroyed exactly once.",
-         "The wrapped iterator's end-of-life theorem requires that the threads have dropped their buffered iterators (the model's end of life does not release thread-held buffers; the borrow checker enforces it on the crate)."),
- "C09": ("Coq proof (wait-freedom of the known-size kinds by a per-thread step budget; termination of the wrapper over an arbitrary iterator under every fair schedule by a potential function, the ticket-coverage invariant and a two-steps-per-thread fairness unit) + frozen-thread adversary and hang detection on the crate + lock-step correspondence",
-         "Theorem c09_known_kinds_wait_free: in every reachable state of a known-size kind (slice, vector, array, range, under any adaptor), a thread inside a call has returned after at most budget (1 for every operation, one pull per element still to be handed out plus one for the loops) of ITS OWN steps in ANY continuation of the schedule -- the other threads may take any steps or none, so a thread frozen anywhere for ever delays nobody. Theorem c09_wrapped_iterator_fair_termination: for the wrapper over an arbitrary iterator (any size hint, any crash point of the wrapped iterator and of the closures), after any schedule, in any continuation made of stretches in each of which every thread takes at least two steps, once there have been more stretches than the potential phi of the state, every thread has finished its program and no call is pending. Proved with a potential that no step increases and every step other than a turn of the waiting loop decreases, and the invariant that, while the completed flag is down, the live tickets cover [yielded, reserved), so the ticket at the yielded counter is alive. On the crate: every case runs under a scheduler that reports a call that never returns (hang), all interleavings of tiny configurations are enumerated with parked spinners (deadlock detection in the model), and on the known-size kinds one thread is frozen at an arbitrary point while the others must finish; the schedules chosen under that adversary are replayed in lock-step on the model.",
-         "Fairness is stated finitarily (stretches with two steps of every thread) instead of coinductively; the bound phi is not claimed to be tight. The theorems assume the run does not wrap the counters (nowrap); wrapped runs are known finding F14."),
- "C10": ('Coq proof (quiescent-state tiling) + correspondence on into_seq_iter results',
-         'Theorem c10_known_kinds: at every quiescent point of every schedule, into_seq_iter of a known-size kind yields exactly the elements from the delivered prefix on (all of them, in order, nothing duplicated or lost); after skip_to_end a suffix of the undelivered elements. Theorem c10_wrapped_iterator: the same for the wrapper over an arbitrary iterator (at a quiescent point what has been delivered is exactly what the wrapped iterator has yielded, so the remainder is the rest of it).',
-         ''),
- "C13": ('Coq proof (the model gives the adaptors no behaviour of their own: equality of whole configurations for every schedule; ledger theorem: nothing of a borrowed source is ever destroyed) + twin lock-step correspondence on the crate (adaptor vs. its underlying iterator under the same schedule) + lock-step correspondence with the model',
-         "Theorems c13_adaptor_transparent (for every environment, adaptor, program and schedule, the run and the end of life of the model under cloned()/copied() are equal, as whole configurations, to those of the underlying iterator: same results, indices, chunk boundaries, lengths, end and skip behaviour, same counters) and c13_source_untouched (for the known-size reference-yielding kinds, under any adaptor, no element of the source is destroyed by the machinery at any point of any schedule nor at the end of life). On the crate: every generated history is run on the adaptor and on an identical underlying reference-yielding iterator under the same schedule and the two event streams must be equal (this comparison does not go through the model); both are also compared with the model, and the extracted checkers (exactly-once, index fidelity, chunk contract, end, skip, ledger) judge the adaptor's traces. Theorem c13_borrowed_source_untouched: for every kind whose elements are not owned by the iterator, the wrapper over an iterator of references included, no event of any run (any program, any schedule, no hypothesis at all) nor of the end of life reports a destroyed element.",
-         "The transparency theorem is true by the construction of the model (step never reads e_adaptor); its content is that every other theorem of the development is thereby a theorem about the adaptors, and the tie to the crate's Cloned/Copied is the twin comparison, which is differential testing."),
- "C18": ('Coq proof (crash points are part of the environment and of the programs: the invariants, the ledger and the progress theorems quantify over them) + fault injection at every crash point on the crate with hang detection and drop ledger',
-         "Theorems c18_no_duplicate (every source kind, every crash point of the wrapped iterator's next() and of the closures, every schedule: no position is delivered twice), c18_others_return_known_kinds (wait-freedom: the other threads' calls return within their own step budget whatever the panicking thread did), c18_others_return_wrapped_iterator (fair termination of every call when the wrapped iterator panics at its k-th call, for every k, single, chunked and buffered pulls and loops) and c18_ledger_known_kinds (consumed vectors and arrays: every element moved out or destroyed exactly once, also when closures panic, at every point and at the end of life). On the crate: the generator injects a panic at every position of the wrapped iterator and of the closures, the scheduler detects calls that never return, the extracted ledger and index checkers judge the traces. Theorem c18_ledger_wrapped_iterator: for the owning wrapper over an arbitrary iterator the ledger stays exact when the wrapped iterator panics at any call and when closures panic.",
-         "Panics of an element's clone (cloned() adaptor) are exercised on the crate only through the closure crash points, not as a separate crash kind of the model (partial on that clause)."),
- "C14": ("Coq proof of bounds entailment over declarations regenerated from the source by a translator (every unsafe impl Send/Sync, constructor, adaptor and ConcurrentIter impl; refutation with witness for the known finding) + compile probes (must-reject program with its must-compile twin) and run-time ownership probes built against the current tree",
-         "Theorems in props/C14.v (38): c14_every_unsafe_impl_is_covered / c14_every_constructor_is_covered / c14_every_concurrent_iter_impl_is_covered (the lists the translator extracts from src/**/*.rs equal the lists the proofs know, so a new unsafe impl or constructor breaks a proof), and for each of them `forall flags, declared flags = true -> required flags = true`, where declared_* is generated from the where-clauses and supertraits of the source on every run (tools/extract_bounds.py -> coq/gen/Bounds.v, fail closed) and required_* is derived from how the type is used across threads (Moves role => Send, Shares role => Sync). For ConIterOfIter the entailment is false on the pinned tree: c14_ConIterOfIter_{sync,send}_refuted, c14_impl_ConIterOfIter_refuted, c14_ctor_iter_refuted are proved with a witness (known finding F10). The borrow / lifetime clauses and the 'no two owners through safe calls' clause are decided by rustc and by execution: 52 probe pairs (each a minimal client that must be rejected with an expected error class and a twin that must compile) over every constructor, adaptor, chunk, buffered iterator, wrapper and the low-level AtomicIter surface, and 3 run-time ownership probes under a drop ledger.",
-         "No model of rustc's borrow checker is attempted: the lifetime clauses are translation validation on a finite probe family (partial), as the property's quantifier itself says. The required_* sets are hand-derived from the concurrency model and are part of the trusted base of this property."),
- "C15": ('Coq proof (element half: ledger tiling at the end of life) + counting global allocator and zero-sized-element drop counts on the crate (block half)',
-         'Theorem c15_every_element_released_exactly_once: for consumed vectors and arrays, every length, every program and schedule, at any quiescent point, after drop or into_seq_iter with any number of elements taken from the remainder, the positions handed out and the positions destroyed by the machinery are pairwise disjoint, inside the collection and together all of it -- every element (and so whatever it owns) is released exactly once. On the crate: every generated history (create; consume fully, partly or not at all, sequentially or concurrently; drop or into_seq_iter) is run three times in one process under a counting global allocator and the live bytes and blocks of the process must not grow from the second repetition on (a growth is confirmed on six repetitions before it is reported); zero-sized elements with a destructor are run on vectors, arrays and owning wrapped iterators and the drops by the caller plus the destructions by the machinery must equal the length; the drop ledger and the extracted checker chk_C08 judge every trace. Theorem c15_wrapped_iterator_end_of_life: the same for the owning wrapper over an arbitrary iterator (buffer slots included), once every thread has dropped its buffered iterator.',
-         "Heap blocks (the consumed vector's buffer, the buffers of buffered iterators) are not objects of the Coq model: that half of the property is decided by the allocator measurement, which is testing (partial)."),
- "C16": ('Coq proof (lia over the machine-word arithmetic layer; run-level invariant over all schedules: no panic but the documented ones) + boundary-matrix correspondence in both profiles',
-         "Theorems c16_pull_arithmetic / c16_delivered_interval: for ALL b, n < 2^64, all lengths and all range bounds below 2^64, every pull of a known-size kind computes exactly [b, b+min(n,len-b)) (or the end), never panics, in both build modes. Theorems c16_runs_known_kinds / c16_end_of_life_known_kinds: on every run of a known-size kind (every length, range, chunk size up to 2^64-1, thread count, schedule; closures that do not panic; buffered pulls only on an existing buffered iterator) chk_C16 holds: no operation panics except buffered_iter(0) and the loops with chunk size zero, which must; next_chunk(0) reports the end; drop and into_seq_iter never panic. The boundary matrix of the property runs on the crate in the debug and the release harness and is compared with the model and judged by chk_C16/C02/C03 and by 'no position twice'. Theorems c16_runs_wrapped_iterator / c16_end_of_life_wrapped_iterator: the same run-level statement for the wrapper over an arbitrary iterator whose next() and whose closures do not panic.",
-         'Counter wraps are known findings F14 (wrapped iterator) and F16 (known-size kinds at lengths near usize::MAX); the run-level theorems carry the nowrap hypothesis.'),
- "C17": ('Coq proof (mode-independence of the arithmetic layer; run-level: no panic in either mode) + two-profile correspondence',
-         'Theorem c17_pull_same_in_both_modes: the result of every pull of a known-size kind is the same in Checked and Wrapping mode for all inputs. Theorem c17_no_panic_known_kinds: on every run of a known-size kind in which no operation asks for a chunk size of zero, nothing panics, whatever the overflow mode of the environment. Identical histories are executed by the debug and the release harness and compared with the model in both modes, with the drop ledger. Theorem c17_no_panic_wrapped_iterator: the same for the wrapper over an arbitrary iterator.',
-         "std preconditions are represented only through the model's ledger and the absence of aborts in the debug profile."),
- "C19": ('Coq proof (family of iterators as a list of configurations: non-interference by induction over the interleaved history; clone copies the position; ledger theorem for the borrowed source) + multi-iterator histories on the crate projected onto single iterators and replayed on the model',
-         "Theorems c19_iterators_are_independent (for every environment, every family of iterators, every interleaved history of steps and clonings, the configuration of each iterator is the one it reaches ALONE, from the state it was created in, under the steps of the history that were taken on it), c19_clone_starts_at_current_position (a clone has the position counter of its original at the moment of cloning and nothing delivered) and c19_source_left_intact (no operation of any history on a fresh reference-yielding iterator of the family destroys an element of the collection). On the crate: histories over 1-2 fresh iterators and the clones that 1-3 threads make at arbitrary points of their programs (slices and ranges) run under one schedule; the history of every single iterator is projected out and must be the history the single-iterator model gives when started at the position the clone read (events and atomic accesses, lock-step); a clone must read the original's counter exactly once, read its current value and write nothing; the address of every delivered reference is compared with the address of the collection's element; the collection is re-read afterwards (unmodified, nothing cloned, nothing dropped). Theorem c19_borrowed_source_untouched: for every reference-yielding kind no event of any run reports a destroyed element (no hypothesis on the run).",
-         'The non-interference theorem holds by the construction of the family model (iterators share no mutable state); its tie to the crate is the projection check, which is differential testing. A clone started at position k is replayed on the model from a configuration whose counter is k; the single-iterator theorems (C01-C06) are stated for iterators started at 0 and are not re-proved for k > 0.'),
+         PRE + "c03_chunk_contract (all kinds): chk_C03 = a returned chunk is non-empty, not longer than requested, consecutive from its begin index, announces its exact length before and after partial consumption, and is short only at the end of the source; one-shot and buffered.",
+         "chk_C03 does not constrain a pull that panicked, nor a buffered pull whose buffered_iter call is not in the trace. The slots of the wrapped iterator's re-used buffer are modelled."),
+ "C04": ("Coq proof (tiling invariants; induction over the schedule for the quiescent prefix) + lock-step correspondence with call/return times",
+         PRE + "c04_linearizable_cursor (all kinds): check_prop 4 = no position twice, each thread receives increasing positions and a pull that starts after another returned receives larger positions (on every run), and, on runs without panics, at every point of the history where no call is pending the delivered positions are a gap-free prefix.",
+         "The sequential corollary (a single-threaded history equals the sequential iterator) is not stated as a theorem: it is the one-thread instance together with C02/C03."),
+ "C05": ("Coq proof (monotone counter; completed flag / exhausted cursor are stable and every later pull is doomed not to take) + lock-step correspondence",
+         PRE + "c05_end_is_permanent (all kinds): chk_C05 = after an end report every later-starting pull reports the end and delivers nothing and every later length query reports zero / unknown.", ""),
+ "C06": ("Coq proof (invariants with skip bookkeeping; wrapped iterator: skip raises the completed flag, which every later pull tests first) + lock-step correspondence",
+         PRE + "c06_skip_to_end (all kinds): check_prop 6 = chk_C06 on every run: after a returned skip_to_end later-starting pulls report the end and has_more is No; no position twice; index fidelity; per-thread order; any number of skips anywhere.",
+         "That elements delivered before the skip stay valid is the ledger of C08, not part of this checker. Found F13 (range skip stored the end value), repaired by a fix: commit."),
+ "C07": ("Coq proof (ticket-protocol invariant => mutual exclusion; vector-clock invariant over the orderings extracted from the source => happens-before) + translator for the memory orderings + lock-step correspondence with orderings compared",
+         "THE PROPERTY DOES NOT HOLD ON THE TREE WITHOUT RESTRICTION (known finding F14: a cumulative reservation of 2^64 or more wraps the reserved counter and two pullers enter the wrapped next() together); what is proved is its restriction to runs that do not wrap. " + PRE +
+         "c07_mutual_exclusion (wrapped): in every reachable state at most one thread is between its entry to and exit from the wrapped iterator. c07_happens_before (wrapped): chk_C07_hb is true on the label stream: every use of the wrapped iterator happens-after the previous one under the C11 release/acquire rules, for the orderings that tools/extract_orderings.py reads out of the source on every run (obligation on the source: sufficient = true). c07_label_stream_scan (wrapped): the mutual-exclusion scan of the label stream is true. The same extracted checker (scan + vector clocks) judges the crate's label streams, whose orderings are reported by the shim.",
+         "Happens-before is computed over sequentially consistent interleavings of the atomics (every load reads the latest write); that this is enough for this protocol under weaker executions is argued informally, not proved. Only the wrapped iterator's cell is a non-atomic location of the model: races on slices, vector elements and buffers are excluded through C01/C08 (disjoint positions), not by a memory-model theorem (partial)."),
+ "C08": ("Coq proof (ledger invariants: taken and destroyed positions tile / are a permutation of what was reserved / yielded) + drop-ledger correspondence",
+         PRE + "c08_known_kinds_run (known kinds): chk_C08 at every point of every run = for consuming vectors and arrays the moved-out and the machinery-destroyed intervals are pairwise disjoint and inside the source; for borrowed sources nothing is destroyed. c08_known_kinds_end_of_life: after drop or into_seq_iter (any number taken from the remainder) at any quiescent point they are also all of the source. c08_wrapped_iterator_run / c08_wrapped_iterator_end_of_life (wrapped, owning or not, with the re-used buffer's stale slots, panics of the wrapped iterator and of closures): the same; the end-of-life theorem additionally assumes that every thread has dropped its buffered iterator. On the crate chunks are also consumed through nth, skip, last, count, fold, step_by (ledger-only stream).",
+         "The internal invariant of the wrapped iterator (positions handed out, destroyed, held and sitting in buffer slots are a permutation of [0, cursor)) is in proofs/IterLedger.v; the props theorem states chk_C08."),
+ "C09": ("Coq proof (wait-freedom of the known-size kinds by a per-thread step budget; termination of the wrapped iterator under every fair schedule by a potential function and the ticket-coverage invariant) + frozen-thread adversary and hang detection on the crate",
+         PRE + "c09_known_kinds_wait_free (known kinds): in every reachable state a thread inside a call has returned after at most budget (1; for loops one pull per element still to be handed out plus one) of ITS OWN steps in ANY continuation -- the other threads may take any steps or none. c09_wrapped_iterator_fair_termination (wrapped): in any continuation made of stretches in each of which every thread takes at least two steps, once there have been more stretches than the potential phi of the state, every thread has finished its program and no call is pending. On the crate: hang detection on every case (step budget), deadlock detection in the DFS of tiny configurations, and on the known kinds one thread frozen at every early point while the others must finish; the extracted checker used for this property's traces is chk_C05 only, progress itself is judged by the scheduler.",
+         "Fairness is stated finitarily; the bound phi is not claimed to be tight. Nothing is proved for runs that wrap the counters."),
+ "C10": ("Coq proof (quiescent-state tiling) + correspondence on into_seq_iter results",
+         PRE + "c10_known_kinds, c10_wrapped_iterator: chk_C10 = at every quiescent point (no call pending) into_seq_iter yields exactly the elements from the delivered prefix on, in order; after skip_to_end a suffix of the undelivered elements.",
+         "chk_C10 is vacuous on runs in which an operation panicked before."),
+ "C11": ("Coq proof (quiescent-state tiling + monotone reported length; for the wrapped iterator one more invariant layer over protocol, flag and coverage invariants) + lock-step correspondence",
+         PRE + "c11_known_kinds, c11_wrapped_iterator: chk_C11 = a query made and answered while nothing else is pending (and no panic so far) equals the number of elements still to be delivered (known length) or is unknown only for sources without an exact hint; after a single or one-shot pull reported the end the answer is zero; at any time a reported length never exceeds the smallest reported before; once zero has been reported every later-starting operation delivers nothing.",
+         "The exact size hint of the wrapped iterator is assumed truthful. The checker identifies Yes(0) with No; 'Maybe only for unknown size' is constrained at quiescent queries only."),
+ "C12": ("Coq proof (loop accumulator invariant on both machines; permutation argument for fold) + lock-step correspondence",
+         PRE + "c12_loops (all kinds): check_prop 12 = closure invocations carry the right index shape, no position twice, index fidelity, end permanence (on every run), and on runs without skip and panic the deliveries tile the source once the end is reported and nothing is pending (a returned loop is an end report). c12_fold_combination (all kinds, complete runs without skip and panic): for every type with an associative and commutative operation and its neutral element and every f, folding what each thread was handed and combining the per-thread results equals the fold of f over the source positions.", ""),
+ "C13": ("Coq proof (the model gives the adaptors no behaviour of their own; the adaptors' source is pinned to the reviewed forwarding code by a translator; ledger theorem for borrowed sources) + twin lock-step correspondence on the crate",
+         PRE + "c13_adaptor_transparent (every environment, no hypothesis): the run and the end of life of the model under cloned()/copied() equal those of the underlying iterator as whole configurations -- true by construction (step never reads e_adaptor). c13_adaptors_are_the_reviewed_forwarders: the list of every method of Cloned / Copied / their buffered chunks with its body, regenerated from the source on every run (tools/extract_adaptors.py), equals the reviewed list in which every method forwards to the underlying iterator and clones / copies what comes back, and fetch_one is not overridden. c13_source_untouched (known kinds, borrowed) and c13_borrowed_source_untouched (every kind whose elements are not owned, no hypothesis on the run): no event reports a destroyed element. On the crate every adaptor history is also run on an identical underlying iterator under the same schedule and the event streams must be equal.",
+         "That the delivered values are clones of exactly the elements is decided on the crate only (values are positions in the model)."),
+ "C14": ("Coq proof of bounds entailment and of the public surface over declarations regenerated from the source by translators + compile probes (must-reject program with must-compile twin) and run-time ownership probes built against the current tree",
+         "THE PROPERTY DOES NOT HOLD ON THE TREE (known findings F10: nothing is demanded of the wrapped iterator type; F11, F15: the low-level AtomicIter / AtomicCounter::store surface is safe and public). Theorems in props/C14.v (40) over gen/Bounds.v and gen/Surface.v, regenerated on every run (fail closed): the lists of every unsafe impl Send/Sync, constructor and ConcurrentIter impl found in the source equal the lists the proofs know; for each, forall flags, declared flags = true -> required flags = true, where required_* is a hand-derived table (a role whose value is used by value by another thread must be Send, a role shared by reference must be Sync); for ConIterOfIter the entailment is refuted with a witness (F10); the modules a client can name are the reviewed ones and the modules holding the internal protocols are private. Lifetimes, borrows and 'no two owners through safe calls' are decided by rustc and by execution on probe programs: 58 compile pairs (52 in the quick tier) and 3 run-time ownership probes.",
+         "No model of rustc's borrow checker: the lifetime clauses are translation validation on a finite probe family, as the property's own quantifier says (partial). The required_* table is part of the trusted base."),
+ "C15": ("Coq proof (element half: ledger at the end of life) + counting global allocator and zero-sized-element drop counts on the crate (block half)",
+         PRE + "c15_every_element_released_exactly_once (consuming vectors and arrays): at any quiescent point, after drop or into_seq_iter with any number of elements taken, the positions handed out and destroyed are pairwise disjoint, inside the collection and all of it. c15_wrapped_iterator_end_of_life (wrapped, owning): chk_C08 after the end of life once every thread has dropped its buffered iterator. Block half on the crate: every history is run three times in one process under a counting global allocator and live bytes / blocks must not grow from the second repetition on (a growth must grow further on six and twelve repetitions to be reported); zero-sized elements with a destructor: drops by the caller plus destructions by the machinery equal the length.",
+         "Heap blocks are not objects of the Coq model: that half of the property is decided by the allocator measurement, which is testing (partial)."),
+ "C16": ("Coq proof (lia over the machine-word arithmetic layer; run-level invariant: no panic but the documented ones) + boundary-matrix correspondence in both profiles",
+         "THE PROPERTY DOES NOT HOLD ON THE TREE AT THE EXTREME OF ITS DOMAIN (known findings F14, F16: histories whose reservations add up to 2^64 or more wrap a counter); the run-level theorems exclude exactly those histories by nowrap. " + PRE +
+         "c16_pull_arithmetic / c16_delivered_interval (known kinds; about the function k_pull, no run hypothesis): for ALL counter values b and request sizes n below 2^64, all lengths and range bounds, a well-formed request computes exactly [b, b+min(n,len-b)) or the end, never panics, in both overflow modes. c16_runs_known_kinds / c16_end_of_life_known_kinds and c16_runs_wrapped_iterator / c16_end_of_life_wrapped_iterator (wrapped: e_crash = None), for programs whose closures are not told to panic and that pull from a buffered iterator only while they have one (plain_progs): chk_C16 = no operation panics except buffered_iter(0) and loops with chunk size zero, which must; next_chunk(0) reports the end; drop and into_seq_iter never panic. Correct indices and non-empty chunks at the boundaries are c02_index_fidelity / c03_chunk_contract. The boundary matrix runs on the crate in the debug and the release harness, judged by chk_C16, chk_C02, chk_C03 and 'no position twice'; a panic with an undocumented message is a violation.", ""),
+ "C17": ("Coq proof (mode independence of whole runs and of the end of life; no panic in either mode) + two-profile correspondence",
+         PRE + "c17_runs_mode_independent / c17_end_of_life_mode_independent (all kinds): the run and the end of life of the model are the same configuration whatever the overflow mode (Checked: overflow panics; Wrapping). c17_pull_same_in_both_modes (known kinds): the same for a single pull, for all inputs. c17_no_panic_known_kinds / c17_no_panic_wrapped_iterator (wrapped: e_crash = None), for plain_progs without zero chunk sizes: nothing panics. On the crate identical histories are executed by the debug and the release harness and compared with the model in both modes, with the drop ledger.",
+         "Documented preconditions of the std operations the crate builds on are represented only through the model's ledger and the absence of aborts in the debug profile (correspondence only)."),
+ "C18": ("Coq proof (crash points are part of the environment and of the programs: invariants, ledgers and progress theorems quantify over them) + fault injection at every crash point on the crate with hang detection and drop ledger",
+         PRE + "c18_no_duplicate (all kinds, every crash point of the wrapped next() and of the closures): no position is delivered twice. c18_others_return_known_kinds / c18_others_return_wrapped_iterator: the C09 theorems, whose environments include the crash points. c18_ledger_known_kinds (run and end of life) and c18_ledger_wrapped_iterator (run; the end of life is c08_wrapped_iterator_end_of_life, which assumes the buffered iterators were dropped): chk_C08. On the crate the generator injects a panic at every position, the scheduler detects calls that never return, chk_C08, chk_C02 and 'no position twice' judge the traces.",
+         "Panics of an element's clone are exercised on the crate only through the closure crash points, not as a separate crash kind of the model (partial on that clause)."),
+ "C19": ("Coq proof (family of iterators as a list of configurations: non-interference; clone copies the position; a clone behaves like an iterator, by simulation; ledger for the borrowed source) + multi-iterator histories on the crate projected onto single iterators",
+         PRE + "c19_iterators_are_independent (no hypothesis): in any interleaved history of steps and clonings the configuration of each iterator is the one it reaches alone under the steps taken on it -- true by construction of the family model. c19_clone_starts_at_current_position. c19_clone_behaves_like_an_iterator (slices and ranges, clone taken at any position k < 2^64): no position twice, nothing below min(k, len), index fidelity, chunk contract, end permanence -- the clone's run is the tail of a run from position 0 in which an extra thread consumed the prefix. c19_source_left_intact / c19_borrowed_source_untouched: no event reports a destroyed element. On the crate: histories over 1-2 fresh iterators and the clones that 1-3 threads make at arbitrary points; every single iterator's history is projected out and replayed on the single-iterator model from the position the clone read; a clone must read the original's counter exactly once, start there and write nothing to the original; the address of every delivered reference is compared with the collection's element; the collection is re-read; a run-time probe clones through a shared reference with a non-Clone element type.",
+         "That references point at the original elements and that the collection is unmodified and usable afterwards are decided on the crate only (correspondence)."),
 }
 
 NOT_YET = {
 }
 
 
+def cross_check():
+    """every theorem named in a claim exists in coq/props, and every theorem of props/Cxx.v is named in the claim of Cxx"""
+    import re, glob
+    have = {}
+    for f in glob.glob(os.path.join(ROOT, "coq", "props", "C*.v")):
+        pid = os.path.basename(f)[:-2]
+        have[pid] = set(re.findall(r"^Theorem\s+([A-Za-z0-9_']+)", open(f).read(), re.M))
+    allnames = set().union(*have.values())
+    bad = []
+    for pid, (tech, text, note) in sorted(P.items()):
+        named = set(re.findall(r"\bc\d\d_[a-z0-9_]+", text + " " + note))
+        # a/b shorthand: c08_x / c08_y are both written out; names must exist somewhere in props
+        for n in sorted(named):
+            if n not in allnames:
+                bad.append("%s: claim names %s, which is no theorem of coq/props" % (pid, n))
+        if pid != "C14":
+            for n in sorted(have.get(pid, ())):
+                if n not in named:
+                    bad.append("%s: theorem %s of props/%s.v is not named in the claim" % (pid, n, pid))
+    if bad:
+        raise SystemExit("gen_manifest: " + "; ".join(bad))
+
+
 def main():
+    cross_check()
     checks = []
     for pid in sorted(P):
         tech, text, note = P[pid]
